@@ -489,6 +489,15 @@ def _module_state(ctx, repo, rule='R09b', modfilter=None):
                     miss_attrs = sorted(a for a in vattrs - kattrs if a in init_only)
                     if miss_attrs:
                         missing = missing + ['self.' + a for a in miss_attrs]
+                if not missing:
+                    lossy = _lossy_key_use(f, key, val_names & flows, flows)
+                    if lossy:
+                        ctx.refuted(rule, mod, n, 'the cache key %s is not a one-to-one function of %s: it '
+                                    'enters the key through %s, which can map different values to the '
+                                    'same key, while the cached object is built from the value itself: '
+                                    'whichever spelling is used first decides what later calls get'
+                                    % (keytxt, lossy[0], lossy[1]), construct=cons)
+                        continue
                 ctx.decide(rule, not missing, mod, n,
                            'memo idiom; cached value built from %s, all part of the key'
                            % sorted(val_names),
@@ -522,6 +531,51 @@ def _self_attrs_through_calls(repo, cls, expr, depth):
                 if m is not None:
                     out |= _self_attrs_through_calls(repo, c, m, depth - 1)
     return out
+
+
+INJECTIVE_CALLS = {'tuple', 'list', 'sorted', 'dict', 'frozenset', 'items', 'update', 'str', 'repr',
+                   'append', 'extend', 'copy'}
+
+
+def _lossy_key_use(fn, key, names, flows):
+    """(name, offending expression text) if one of `names` reaches the cache key only through an
+    operation that is not one-to-one (a table lookup with default, lower(), a slice, arithmetic);
+    None if every occurrence on the way to the key sits in tuples/lists/dicts/sorted()/items()"""
+    exprs = [key]
+    for s in iter_own(fn):
+        if isinstance(s, ast.Assign) and any(isinstance(_root(t), ast.Name) and _root(t).id in flows
+                                             for t in s.targets):
+            exprs.append(s.value)
+        elif isinstance(s, ast.Call) and call_name(s) in ('update', 'append', 'extend', 'add') and \
+                isinstance(call_recv(s), ast.Name) and call_recv(s).id in flows:
+            exprs.extend(s.args)
+
+    def ok_parent(child, par):
+        if isinstance(par, (ast.Tuple, ast.List, ast.Dict, ast.Set, ast.keyword, ast.Starred)):
+            return True
+        if isinstance(par, ast.Attribute) and par.value is child:
+            gp = getattr(par, '_parent', None)
+            return isinstance(gp, ast.Call) and gp.func is par and par.attr in INJECTIVE_CALLS
+        if isinstance(par, ast.Call):
+            return call_name(par) in INJECTIVE_CALLS
+        return False
+    direct = {}
+    for root in exprs:
+        for n in ast.walk(root):
+            if isinstance(n, ast.Name) and n.id in names and isinstance(n.ctx, ast.Load):
+                child, par, bad = n, getattr(n, '_parent', None), None
+                while child is not root and par is not None:
+                    if isinstance(par, ast.Lambda):
+                        break
+                    if not ok_parent(child, par):
+                        bad = par
+                        break
+                    child, par = par, getattr(par, '_parent', None)
+                direct.setdefault(n.id, []).append(bad)
+    for nm, lst in sorted(direct.items()):
+        if lst and all(b is not None for b in lst):
+            return nm, short(lst[0], 70)
+    return None
 
 
 def _flows_into(fn, expr):
